@@ -26,6 +26,10 @@ def main(argv=None):
         from . import selftest
 
         return selftest.main(argv[1:])
+    if cmd == "mutants":
+        from . import mutants
+
+        return mutants.main(argv[1:])
     if cmd == "manifest":
         from . import manifest
 
